@@ -454,6 +454,29 @@ IDENTITY_CALLS = (
 )
 
 
+def fold_int(t, _depth=0):
+    """Integer value of a constant term, folding arithmetic on constants (named constants, `OFFSET + 1`)."""
+    import re as _re
+    if _depth > 8:
+        return None
+    s = strip_identity(t)
+    if s[0] == "const":
+        m = _re.match(r"^(-?\d+)(?:_[iu](?:8|16|32|64|128|size))?$", str(s[1]))
+        return int(m.group(1)) if m else None
+    if s[0] == "field" and s[2] == "0" and s[1][0] == "binop" and s[1][1].endswith("WithOverflow"):
+        s = ("binop", s[1][1][:-len("WithOverflow")], s[1][2], s[1][3])
+    if s[0] == "binop" and len(s) >= 4:
+        a, b = fold_int(s[2], _depth + 1), fold_int(s[3], _depth + 1)
+        if a is None or b is None:
+            return None
+        try:
+            return {"Add": a + b, "Sub": a - b, "Mul": a * b, "Shl": a << b, "Shr": a >> b, "BitOr": a | b, "BitAnd": a & b, "BitXor": a ^ b,
+                    "Div": a // b if b else None, "Rem": a % b if b else None, "AddUnchecked": a + b, "SubUnchecked": a - b}.get(s[1])
+        except (ValueError, OverflowError):
+            return None
+    return None
+
+
 class Origins:
     """Backward def-use resolution inside one body."""
 
@@ -516,6 +539,10 @@ class Origins:
                 t = ("variant", t, e["d"])
             elif "i" in e:
                 it = self.of_local(e["i"]) if hasattr(self, "body") else ("unknown",)
+                if it[0] != "const":
+                    v_ = fold_int(it)          # `buf[OFFSET + 1]`: a constant expression is a constant index
+                    if v_ is not None:
+                        it = ("const", str(v_))
                 t = ("index", t, it[1] if it[0] == "const" else "_%d" % e["i"])
             elif "ci" in e:
                 t = ("index", t, str(e["ci"]))
